@@ -30,8 +30,7 @@ pub struct GasBinder {
 
 impl GasBinder {
     pub fn new(inst: &J, init: &J) -> GasBinder {
-        let mut cx = Ctx::new();
-        cx.ledger_step = 5;
+        let mut cx = Ctx::new_aging(5);
         let env = cx.env.clone();
         let owner = cx.addr(&jstr(init, "owner"));
         let collector = cx.addr(&jstr(init, "collector"));
@@ -118,6 +117,7 @@ impl GasBinder {
     }
 
     pub fn exec(&mut self, act: &J) -> Obs {
+        self.cx.set_argdrop(act);
         let env = self.cx.env.clone();
         let name = jstr(act, "name");
         let gs = self.gs.clone();
@@ -164,6 +164,10 @@ impl GasBinder {
                 };
                 let auths: Vec<(Address, Inv)> = auth_names.iter().map(|n| (self.cx.addr(n), Inv::new(&gs, func, args.clone()))).collect();
                 self.cx.call_auth(&auths, &gs, func, args)
+            }
+            "HookOpenWindow" => {
+                env.as_contract(&gs, || axelar_soroban_std::interfaces::verif_open_migration_window(&env));
+                Ok(Val::VOID.into())
             }
             "TransferOwnership" => {
                 let new = self.cx.addr(act["new"].as_str().unwrap());
